@@ -153,6 +153,8 @@ class _KJ(Kind):
             return s.JList(v.ident)
         if isinstance(v, VJDict):
             return s.JDict(v.ident)
+        if isinstance(v, VList) and z3.is_int_value(z3.simplify(v.n)) and z3.simplify(v.n).as_long() == 0:
+            return s.JList(z3.IntVal(-1))        # [] (its length fact is asserted at the start of every path)
         raise TypeError(f'cannot store {v!r} as J')
 
     def fresh(self, ip, hint='j'):
@@ -302,8 +304,26 @@ def truth(ip, v):
             return UF(v.kind.lenf, v.kind.sort(), z3.IntSort())(v.t) > 0
         return True       # an object without __bool__/__len__
     if isinstance(v, VJ):
-        raise EngineError('truthiness of a JSON value in specification mode')
+        return j_truthy_term(v.t)
     raise EngineError(f'truthiness of {v!r}')
+
+
+def j_truthy_term(t):
+    '''Python truthiness of a JSON value, as a term.'''
+    s_ = J_sort()
+    return z3.Or(z3.And(s_.is_JBool(t), s_.jb(t)), z3.And(s_.is_JInt(t), s_.ji(t) != 0),
+                 z3.And(s_.is_JFloat(t), z3.Not(z3.And(s_.jfk(t) == 0, s_.jfr(t) == 0))),
+                 z3.And(s_.is_JStr(t), UF('slen', z3.StringSort(), z3.IntSort())(s_.js(t)) > 0),
+                 z3.And(s_.is_JList(t), UF('jlist_len', z3.IntSort(), z3.IntSort())(s_.jl(t)) > 0),
+                 z3.And(s_.is_JDict(t), UF('jdict_len', z3.IntSort(), z3.IntSort())(s_.jd(t)) > 0))
+
+
+def j_num_eq(t, n):
+    '''Python `==` between a JSON value (term) and an integer term: bool is an int, a finite float equals the integer
+    of the same value.'''
+    s_ = J_sort()
+    return z3.Or(z3.And(s_.is_JInt(t), s_.ji(t) == n), z3.And(s_.is_JBool(t), z3.If(s_.jb(t), 1, 0) == n),
+                 z3.And(s_.is_JFloat(t), s_.jfk(t) == 0, s_.jfr(t) == z3.ToReal(n)))
 
 
 # ---------------------------------------------------------------------------------------------
@@ -494,7 +514,13 @@ def eq_term(ip, a, b):
     '''a == b as a bool / z3 term (Python semantics across types: unequal types compare
     unequal, bool is an int).'''
     a, b = resolve(ip, a), resolve(ip, b)
-    if isinstance(a, VJ) or isinstance(b, VJ):      # specification mode
+    if isinstance(a, VJ) or isinstance(b, VJ):      # specification mode / element of a comprehension
+        if ip.mode == 'quant':
+            j, o = (a, b) if isinstance(a, VJ) else (b, a)
+            if is_intlike(o):
+                return j_num_eq(j.t, int_term(o))
+            if not isinstance(o, (VJ, VStr)) and not (isinstance(o, VConst) and (o.py is None or isinstance(o.py, str))):
+                raise EngineError('comparison of a JSON element with a non-scalar inside a comprehension')
         return KJ.unwrap(a) == KJ.unwrap(b)
     if isinstance(a, VConst) and isinstance(b, VConst):
         return a.py == b.py
@@ -733,6 +759,18 @@ def tuple_order(ip, op, a, b, node):
 
 def contains(ip, cont, x, node):
     cont = resolve(ip, cont)
+    if isinstance(cont, VJ):
+        s_ = J_sort()
+        xv = resolve(ip, x)
+        if is_str(xv):
+            if ip.mode == 'quant':
+                ip.raise_if(z3.Not(z3.Or(s_.is_JDict(cont.t), s_.is_JStr(cont.t), s_.is_JList(cont.t))), 'TypeError', node)
+                if not z3.is_false(z3.simplify(z3.Or(s_.is_JStr(cont.t), s_.is_JList(cont.t)))):
+                    ip.assume(z3.Not(z3.Or(s_.is_JStr(cont.t), s_.is_JList(cont.t))))     # see A-JSHAPE
+                    ip.assumed.add('A-JSHAPE: `in` on a JSON element inside a comprehension is taken on an object or a non-container')
+            return z3.And(s_.is_JDict(cont.t),
+                          UF('jdict_has', z3.IntSort(), z3.StringSort(), z3.BoolSort())(s_.jd(cont.t), KStr.unwrap(xv)))
+        raise EngineError('membership of a non-string in a JSON term outside code mode')
     if isinstance(cont, (VSet, VDict)) and ip.mode == 'code':
         xv = resolve(ip, x)
         if isinstance(xv, (VJList, VJDict, VList, VDict, VSet)):
@@ -850,6 +888,19 @@ def slice_bounds(ip, sl, n):
 
 def get_item(ip, obj, idx, node):
     obj = resolve(ip, obj)
+    if isinstance(obj, VJ):
+        # specification mode (total) or an arbitrary element of a comprehension (may-raise conditions collected)
+        s_ = J_sort()
+        key = resolve(ip, idx)
+        if is_str(key):
+            kt = KStr.unwrap(key)
+            ip.raise_if(z3.Not(z3.Or(s_.is_JDict(obj.t), s_.is_JStr(obj.t), s_.is_JList(obj.t))), 'TypeError', node)
+            ip.raise_if(z3.Or(s_.is_JStr(obj.t), s_.is_JList(obj.t)), 'TypeError', node)
+            ip.raise_if(z3.Not(UF('jdict_has', z3.IntSort(), z3.StringSort(), z3.BoolSort())(s_.jd(obj.t), kt)), 'KeyError', node)
+            return VJ(UF('jdict_get', z3.IntSort(), z3.StringSort(), J_sort())(s_.jd(obj.t), kt))
+        if is_intlike(key) and ip.mode == 'spec':
+            return VJ(UF('jlist_item', z3.IntSort(), z3.IntSort(), J_sort())(s_.jl(obj.t), int_term(key)))
+        raise EngineError('subscript of a JSON term with this key outside code mode')
     if isinstance(obj, VList):
         if isinstance(idx, VSlice):
             if obj.ek is None:
@@ -1271,6 +1322,12 @@ STR_METHODS = {'split', 'lower', 'upper', 'join', 'format', 'startswith', 'endsw
 
 def get_attr(ip, obj, attr, node, fr):
     obj = resolve(ip, obj)
+    if isinstance(obj, VJ):
+        if attr == 'get':
+            s_ = J_sort()
+            ip.raise_if(z3.Not(s_.is_JDict(obj.t)), 'AttributeError', node)
+            return VFunc('bound', 'jterm.get', self_val=obj)
+        raise EngineError(f'attribute {attr} of a JSON term outside code mode')
     if isinstance(obj, VObj):
         if attr in obj.fields:
             v = obj.fields[attr]
@@ -2604,7 +2661,9 @@ def _o_is_set(ip, recv, args, kwargs, node, fr):
 
 def cm_enter(ip, cm, item, fr):
     cm = resolve(ip, cm)
-    if isinstance(cm, VOpaque):
+    if isinstance(cm, VOpaque) or (isinstance(cm, VU) and cm.kind.name == 'Opaque'):
+        # lock / semaphore: transparent in the cooperative model (it only delays)
+        ip.assumed.add('A-COOP: locks and semaphores only delay the holder; they are transparent to the function under contract')
         return cm
     if isinstance(cm, VObj):
         spec = ip.reg.classes.get(cm.cls)
@@ -2623,7 +2682,7 @@ def cm_enter(ip, cm, item, fr):
 
 def cm_exit(ip, cm, exc, fr, node):
     cm = resolve(ip, cm)
-    if isinstance(cm, VOpaque):
+    if isinstance(cm, VOpaque) or (isinstance(cm, VU) and cm.kind.name == 'Opaque'):
         return
     if isinstance(cm, VObj):
         spec = ip.reg.classes.get(cm.cls)
@@ -2708,6 +2767,16 @@ def name_set(ip, x, body, ek):
     return S
 
 
+def record_as_j(ip, v, J):
+    '''A record dictionary built per element of a comprehension (a JSON request object): element J of the result is an
+    opaque JSON object with exactly these keys; its values are not tracked beyond this point.'''
+    s_ = J_sort()
+    f = z3.Function(ip.fresh_name('reqobj'), z3.IntSort(), z3.IntSort())
+    ip.assumed.add('A-OPAQUE-PAYLOAD: request objects built in a comprehension are passed on as opaque non-empty JSON '
+                   'objects (their number is tracked, their contents are not)')
+    return VJ(s_.JDict(f(J)))
+
+
 def comprehension(ip, e, fr, kind):
     if len(e.generators) != 1:
         raise EngineError('comprehension with several generators')
@@ -2767,6 +2836,8 @@ def comprehension(ip, e, fr, kind):
                 conds.append(t)
                 ip.assume(t)
             v = resolve(ip, ip.eval(e.elt, sub))
+            if isinstance(v, VDict) and v.rec is not None:
+                v = record_as_j(ip, v, J)
             ek = kind_of(v)
             vt = ek.unwrap(v)
         comprehension_outcome(ip, scope, J, z3.And(J >= 0, J < n, *conds), e)
@@ -2842,7 +2913,7 @@ def comprehension(ip, e, fr, kind):
 SPEC_FUNCS = {'old', 'forall', 'exists', 'implies', 'iff', 'ite', 'dom', 'union', 'inter', 'diff', 'subset',
               'empty', 'add', 'remove', 'use', 'check', 'assume', 'pow2', 'store', 'lookup', 'has',
               'is_none', 'some', 'slice_', 'concat', 'listof', 'setof', 'card', 'fresh', 'havoc', 'tup',
-              'seq_eq', 'div', 'mod', 'bv', 'apply', 'let', 'take', 'snoc', 'copy', 'drop', 'sub', 'is_err', 'okval', 'truthy', 'truthy_j'}
+              'seq_eq', 'div', 'mod', 'bv', 'apply', 'let', 'take', 'snoc', 'copy', 'drop', 'sub', 'is_err', 'okval', 'truthy', 'truthy_j', 'py_eq'}
 
 
 def find_old(fr):
@@ -2994,13 +3065,10 @@ def spec_call(ip, e, fr):
     if name == 'truthy_j':
         # Python truthiness of a JSON value, as a term
         v = ev(e.args[0])
-        t = KJ.unwrap(v)
-        s_ = J_sort()
-        return KBool.wrap(z3.Or(z3.And(s_.is_JBool(t), s_.jb(t)), z3.And(s_.is_JInt(t), s_.ji(t) != 0),
-                                z3.And(s_.is_JFloat(t), z3.Not(z3.And(s_.jfk(t) == 0, s_.jfr(t) == 0))),
-                                z3.And(s_.is_JStr(t), UF('slen', z3.StringSort(), z3.IntSort())(s_.js(t)) > 0),
-                                z3.And(s_.is_JList(t), UF('jlist_len', z3.IntSort(), z3.IntSort())(s_.jl(t)) > 0),
-                                z3.And(s_.is_JDict(t), UF('jdict_len', z3.IntSort(), z3.IntSort())(s_.jd(t)) > 0)))
+        return KBool.wrap(j_truthy_term(KJ.unwrap(v)))
+    if name == 'py_eq':
+        # Python `==` between a JSON value and an integer (numeric cross-type equality)
+        return KBool.wrap(j_num_eq(KJ.unwrap(ev(e.args[0])), int_term(ev(e.args[1]))))
     if name == 'truthy':
         return KBool.wrap(bt(e.args[0]))
     if name == 'is_err':
@@ -3195,6 +3263,20 @@ def _jd_get(ip, recv, args, kwargs, node, fr):
     if ip.branch(has):
         return val
     return default
+
+
+@method('jterm', 'get')
+def _jt_get(ip, recv, args, kwargs, node, fr):
+    '''dict.get on a JSON term known (or, in a comprehension, required) to be an object'''
+    s_ = J_sort()
+    default = args[1] if len(args) > 1 else VConst(None)
+    k = resolve(ip, args[0])
+    if not is_str(k):
+        raise EngineError('jterm.get with a non-string key')
+    kt = KStr.unwrap(k)
+    d = s_.jd(recv.t)
+    has = UF('jdict_has', z3.IntSort(), z3.StringSort(), z3.BoolSort())(d, kt)
+    return VJ(z3.If(has, UF('jdict_get', z3.IntSort(), z3.StringSort(), J_sort())(d, kt), KJ.unwrap(resolve(ip, default))))
 
 
 @method('jdict', 'copy')
